@@ -3,6 +3,7 @@ package main
 // The per-property check command used by MANIFEST.json.
 
 import (
+	"os/exec"
 	"encoding/json"
 	"flag"
 	"fmt"
@@ -185,7 +186,7 @@ func cmdCheck(args []string) int {
 	if *tier == "thorough" {
 		cfg.TimeoutS = 240
 		cfg.All = true
-		cfg.Workers = 5
+		cfg.Workers = 8
 	}
 	e.Solve(allObls, cfg)
 	if os.Getenv("GOVC_TIMING") != "" {
@@ -279,6 +280,18 @@ func cmdCheck(args []string) int {
 		}
 		report(o, st)
 	}
+	// bounded stand-ins (labelled bounded, never counted as proved) for functions kept trusted by the contracts
+	var bounded []map[string]interface{}
+	if (*prop == "C05" || *prop == "C15") && *only == "" {
+		b := runBoundedRecord(*repo, *vdir)
+		bounded = append(bounded, b)
+		if b["result"] != "pass" {
+			violations++
+			rp := writeReplay(*vdir, *prop, "bounded:buildRecordCodec+schemaForStruct", map[string]interface{}{"property": *prop, "obligation": "bounded stand-in for buildRecordCodec / schemaForStruct", "status": "the real code fails the bounded enumeration", "test": "/verif/bounded/record_bounded_test.go", "output": b["output"]})
+			fmt.Printf("VIOLATION property=%s replay=%s\n", *prop, rp)
+			fmt.Printf("  bounded stand-in (buildRecordCodec / schemaForStruct over enumerated struct types): %v\n", b["first_failure"])
+		}
+	}
 	var unsup []string
 	for _, r := range results {
 		if r.Unsup != "" || r.Err != "" {
@@ -360,6 +373,7 @@ func cmdCheck(args []string) int {
 		"discharged_by": bySolver, "solver_seconds_total": round2(solverSecs), "load_seconds": round2(loadS),
 		"known_findings_reported": knownHit, "failed_obligations": failures, "untranslatable": unsup,
 		"explanation": lv.Expl,
+		"bounded_standins": bounded,
 		"confirmed_by_two_or_more_solvers": nCross,
 		"rule":        "one SMT query per named obligation generated from the SSA of /repo's working tree; an obligation counts as discharged only if a solver answers unsat",
 	}
@@ -574,4 +588,47 @@ func parseModel(s string) map[string]string {
 		}
 	}
 	return out
+}
+
+
+// runBoundedRecord runs the bounded enumeration test for the trusted functions buildRecordCodec and schemaForStruct
+// against the real code of the working tree (go test -overlay; nothing is written into the repository).
+func runBoundedRecord(repo, vdir string) map[string]interface{} {
+	res := map[string]interface{}{
+		"functions": []string{"buildRecordCodec", "schemaForStruct"},
+		"label":     "BOUNDED (not a proof)",
+		"bound":     "every struct type with 0..3 fields over 13 field kinds and plain/omitempty/excluded tags (reflect.StructOf), its generated schema, its record codec, and sampled projection pairs",
+		"checks":    "schema fields = exported non-excluded Go fields in declaration order under their JSON names with the documented type mapping, deterministic; codec fields carry the offset of the struct field of that name, write at most the field's size, stay inside the struct and do not overlap; absent fields are skip-only",
+	}
+	dir, err := os.MkdirTemp("", "govc-bounded")
+	if err != nil {
+		res["result"] = "error"
+		return res
+	}
+	defer os.RemoveAll(dir)
+	ov, _ := json.Marshal(map[string]interface{}{"Replace": map[string]string{filepath.Join(repo, "zz_govc_bounded_test.go"): filepath.Join(vdir, "bounded", "record_bounded_test.go")}})
+	ovf := filepath.Join(dir, "ov.json")
+	os.WriteFile(ovf, ov, 0o644)
+	cmd := exec.Command("go", "test", "-overlay", ovf, "-vet=off", "-count=1", "-timeout", "300s", "-run", "TestBoundedBuildRecordCodecAndSchemaForStruct$", "-v", ".")
+	cmd.Dir = repo
+	cmd.Env = append(os.Environ(), "GOFLAGS=-mod=mod", "GOPROXY=off")
+	out, _ := cmd.CombinedOutput()
+	o := string(out)
+	if len(o) > 3000 {
+		o = o[:3000]
+	}
+	res["output"] = o
+	res["result"] = "fail"
+	for _, l := range strings.Split(o, "\n") {
+		if strings.Contains(l, "BOUNDED:") {
+			res["cases"] = strings.TrimSpace(l[strings.Index(l, "BOUNDED:")+8:])
+		}
+		if strings.HasPrefix(l, "ok ") || strings.HasPrefix(l, "ok\t") {
+			res["result"] = "pass"
+		}
+		if strings.Contains(l, "zz_govc_bounded_test.go") && res["first_failure"] == nil && !strings.Contains(l, "BOUNDED:") {
+			res["first_failure"] = strings.TrimSpace(l)
+		}
+	}
+	return res
 }
